@@ -101,6 +101,8 @@ class HistGen(object):
         self.slice_proj = 0.0     # share of find_one / find_one_and_* projections that hold $slice
         self.array_keys = 0.0     # share of the fields a / b that hold an ARRAY of colliding values
         self.ttl_options = 0.0    # share of the index creations (ttl histories) that combine options
+        self.lazy_filters = 0.0   # share of the multi-document updates whose filter RAISES on the
+        #                           data of some documents and not of others (lazy_filter)
         self.shadow = []          # rough picture of the documents, to aim filters and updates
         self.index_names = []
         self.now = T0
@@ -227,7 +229,7 @@ class HistGen(object):
                 d = r.choice(nested)
                 f = {'_id': copy.deepcopy(d['_id'])} if r.random() < 0.7 else {}
                 return [k, f, copy.deepcopy(r.choice(NESTED_ID_UPDATES)), r.random() < 0.2]
-            f = self.filt()
+            f = self.multi_filter() if k == 'update_many' else self.filt()
             u = self.ug.update(self.some_doc())
             if self.ttl and r.random() < 0.3:
                 # the TTL field changes shape under updates as well: a new value of any shape,
@@ -300,6 +302,157 @@ class HistGen(object):
         if x < 0.6:
             return {self.r.choice(['a', 'b']): self.r.choice([1, 2, None, 'x'])}
         return self.filt()
+
+    def multi_filter(self):
+        """the filter of a multi-document update (update_many, an UpdateMany request of a bulk)"""
+        if self.lazy_filters and self.r.random() < self.lazy_filters:
+            return self.lazy_filter()
+        return self.filt()
+
+    # Aggregation operators (inside `$expr`) that RAISE on some kinds of value and evaluate on
+    # others: (template of the operator around the field reference, kinds of value it accepts).
+    # Whatever a field holds elsewhere in the collection - another type, zero, nothing - decides
+    # whether the document is matched, passed over or makes the call fail.
+    EXPR_PARTIAL = (
+        (lambda f: {'$size': f}, 'arr'),
+        (lambda f: {'$arrayElemAt': [f, 0]}, 'arr str null doc'),
+        (lambda f: {'$slice': [f, 1]}, 'arr'),
+        (lambda f: {'$concatArrays': [f, [1]]}, 'arr null'),
+        (lambda f: {'$map': {'input': f, 'in': 1}}, 'arr null'),
+        (lambda f: {'$filter': {'input': f, 'cond': True}}, 'arr str null doc'),
+        (lambda f: {'$divide': [6, f]}, 'num null'),
+        (lambda f: {'$divide': [f, 2]}, 'num null'),
+        (lambda f: {'$mod': [5, f]}, 'num null'),
+        (lambda f: {'$add': [f, 1]}, 'num null date'),
+        (lambda f: {'$subtract': [f, 1]}, 'num null date'),
+        (lambda f: {'$multiply': [f, 2]}, 'num null'),
+        (lambda f: {'$abs': f}, 'num null'),
+        (lambda f: {'$sqrt': f}, 'num null'),
+        (lambda f: {'$ln': f}, 'num null'),
+        (lambda f: {'$floor': f}, 'num null'),
+        (lambda f: {'$pow': [f, 2]}, 'num null'),
+        (lambda f: {'$concat': [f, 'x']}, 'str null'),
+        (lambda f: {'$split': [f, 'a']}, 'str null'),
+        (lambda f: {'$year': f}, 'date null'),
+        (lambda f: {'$objectToArray': f}, 'doc null'),
+    )
+    # conditions that raise as soon as they are EVALUATED (whatever the document): behind a
+    # guard they are reached only on the documents the guard lets through
+    RAISING_CONDITIONS = (
+        lambda f: {f: {'$in': 5}}, lambda f: {f: {'$nin': 'x'}}, lambda f: {f: {'$foo': 1}},
+        lambda f: {f: {'$type': 'foo'}}, lambda f: {f: {'$not': 5}}, lambda f: {f: {'$near': 1}},
+        lambda f: {'$foo': 1}, lambda f: {'$and': []}, lambda f: {'$where': 'x'},
+        lambda f: {'$or': {f: 1}}, lambda f: {f: {'$not': {'$foo': 1}}},
+        lambda f: {'$expr': {'$foo': ['$' + f, 1]}}, lambda f: {'$expr': {'$divide': [1, 0]}},
+    )
+
+    @staticmethod
+    def kind_of(v):
+        if isinstance(v, list):
+            return 'arr'
+        if isinstance(v, dict):
+            return 'doc'
+        if isinstance(v, bool):
+            return 'bool'
+        if isinstance(v, (int, float)):
+            return 'num'
+        if isinstance(v, str):
+            return 'str'
+        if isinstance(v, _dt.datetime):
+            return 'date'
+        return 'null' if v is None else 'other'
+
+    def guard(self):
+        """a condition that is well formed and usually holds on several documents"""
+        r = self.r
+        d = self.some_doc() or {}
+        x = r.random()
+        held = [f for f in d if f != '_id']
+        if x < 0.3 and held:
+            f = r.choice(held)
+            return {f: copy.deepcopy(d[f])} if not isinstance(d[f], dict) or \
+                not any(k.startswith('$') for k in d[f]) else {f: {'$exists': True}}
+        if x < 0.55:
+            return {r.choice(gen.FIELDS): {'$exists': r.random() < 0.6}}
+        if x < 0.7:
+            return {r.choice(['a', 'b']): r.choice([1, 2, None, 'x', {'$ne': 1}, {'$in': [1, 2]}])}
+        if x < 0.85:
+            return {r.choice(gen.FIELDS): {'$type': r.choice(['int', 'string', 'array', 'object',
+                                                                 'number'])}}
+        return {'_id': r.choice([{'$in': [0, 1, 2, 3, 'a']}, {'$gte': 0}, {'$ne': 0},
+                                  {'$type': 'object'}, {'$type': 'number'}])}
+
+    def lazy_filter(self):
+        """a filter that is evaluated document by document and RAISES on the data of some
+        documents while it matches (or passes over) others - so that a multi-document update meets
+        the failure after documents it has already updated:
+          * `$expr` around an aggregation operator that accepts some kinds of value only (`$size`
+            of a non-array, `$divide` by zero or by a string, `$concat` of a number, `$year` of a
+            non-date …), aimed at a field the documents hold with values of several kinds;
+          * a disjunction / negation whose later part raises whenever it is evaluated (`$in` with
+            a non-array, an unknown or unimplemented operator, an invalid `$type`, an empty
+            `$and` …) and is reached only by the documents that an earlier, well-formed guard
+            does not settle;
+          * a condition that raises on arrays only (`$not: {$elemMatch: <non-document>}`) or on
+            candidates only (`$nin` with a non-array over a path that dead-ends in some documents),
+        alone or next to further well-formed conditions"""
+        r = self.r
+        d = self.some_doc() or {}
+        held = [f for f in d if f != '_id']
+        f = r.choice(held) if held and r.random() < 0.8 else r.choice(gen.FIELDS)
+        x = r.random()
+        if x < 0.5:
+            kind = self.kind_of(d.get(f)) if f in d else None
+            fitting = [t for t in self.EXPR_PARTIAL if kind in t[1].split()]
+            make, _ = r.choice(fitting) if fitting and r.random() < 0.75 else \
+                r.choice(self.EXPR_PARTIAL)
+            ref = '$' + f
+            if isinstance(d.get(f), dict) and d[f] and r.random() < 0.3:
+                ref = '$%s.%s' % (f, r.choice(list(d[f])))
+            e = make(ref)
+            y = r.random()
+            if y < 0.4:
+                e = {r.choice(['$gte', '$ne', '$lt']): [e, r.choice([0, 1, 2, 'zz'])]}
+            elif y < 0.55:
+                e = {'$or': [e, True]}
+            elif y < 0.7:
+                e = {'$and': [self.expr_guard(), e]}
+            elif y < 0.8:
+                e = {'$cond': [self.expr_guard(), e, r.choice([True, False])]}
+            out = {'$expr': e}
+        elif x < 0.85:
+            bad = r.choice(self.RAISING_CONDITIONS)(f)
+            g = self.guard()
+            y = r.random()
+            if y < 0.6:
+                out = {'$or': [g, bad]}
+            elif y < 0.75:
+                out = {'$or': [g, self.guard(), bad]}
+            elif y < 0.9:
+                out = {'$nor': [{'$nor': [g, bad]}]}
+            else:
+                out = {'$and': [{'$or': [g, bad]}]}
+        else:
+            out = r.choice([
+                {f: {'$not': {'$elemMatch': 5}}},
+                {f: {'$not': {'$elemMatch': {'$foo': 1}}}},
+                {f + '.' + r.choice(gen.FIELDS + gen.IDX): {'$nin': 5}},
+                {f + '.' + r.choice(gen.FIELDS): {'$not': {'$in': 'x'}}},
+            ])
+        y = r.random()
+        if y < 0.2:
+            out = dict(list(self.guard().items()) + list(out.items()))
+        elif y < 0.3:
+            out = dict(list(out.items()) + [(k, v) for k, v in self.guard().items()
+                                            if k not in out])
+        return out
+
+    def expr_guard(self):
+        """a well-formed boolean expression over a field"""
+        r = self.r
+        f = '$' + r.choice(gen.FIELDS)
+        return r.choice([{'$isArray': f}, {'$ne': [f, None]}, {'$gt': [f, 0]},
+                         {'$eq': [f, r.choice([1, 2, None, 'x'])]}, {'$not': [{'$isArray': f}]}])
 
     # `$slice` arguments of a projection, by what the library makes of them on an array
     SLICE_ARGS = (
@@ -392,7 +545,8 @@ class HistGen(object):
             self.shadow.append(copy.deepcopy(d))
             return [k, d]
         if k in ('UpdateOne', 'UpdateMany'):
-            return [k, self.filt(), self.ug.update(self.some_doc()), r.random() < 0.3]
+            f = self.multi_filter() if k == 'UpdateMany' else self.filt()
+            return [k, f, self.ug.update(self.some_doc()), r.random() < 0.3]
         if k == 'ReplaceOne':
             return [k, self.filt(), self.ug.replacement(self.some_doc()), r.random() < 0.3]
         return [k, self.filt()]
